@@ -9,6 +9,7 @@ import Fosite.Driver.PureClientAuth
 import Fosite.Driver.PureExpiry
 import Fosite.Driver.PureAssertion
 import Fosite.Driver.PureIDToken
+import Fosite.Driver.PureAuthz
 namespace Fosite.Driver
 open Fosite
 
@@ -26,6 +27,7 @@ def pureModel (fs : List String) : Option String :=
   | "expiry" :: _ => pureModelExpiry fs
   | "assertion" :: _ => pureModelAssertion fs
   | "idtoken" :: _ => pureModelIDToken fs
+  | "authz" :: _ => pureModelAuthz fs
   | _ => none
 
 /-- spec side: the documented meaning, used as the monitor oracle on implementation outputs -/
@@ -42,6 +44,7 @@ def pureSpec (fs : List String) : Option String :=
   | "expiry" :: _ => pureSpecExpiry fs
   | "assertion" :: _ => pureSpecAssertion fs
   | "idtoken" :: _ => pureSpecIDToken fs
+  | "authz" :: _ => pureSpecAuthz fs
   | _ => none
 
 end Fosite.Driver
